@@ -251,8 +251,14 @@ Post(s, e) ==
     CASE e.e = "gsc" ->
            \* the property states the verdict only for MetaepochLimit(n) ("exactly n") and DontRun ("zero"); a different
            \* verdict of another shipped condition is recorded as information
-           LET verr == IF GscModelled(s) /\ GscVal(s) # e.v
-                       THEN {IF s.cfg.gsc \in {"MetaepochLimit", "DontRun"} THEN "C05_GscVerdict" ELSE "Info_GscVerdict"} ELSE {}
+           \* "run() performs whole metaepochs until the global stop condition holds": for the shipped conditions whose
+           \* meaning is a crisp function of the tree (metaepoch count, evaluation totals, activity of demes) the verdict
+           \* must be that function of the observed tree - evaluation totals only while reported counters are exact
+           \* (no refusal yet, no memoising problem).  NoActiveNonrootDemes' waiting period stays informational.
+           LET crisp == \/ s.cfg.gsc \in {"MetaepochLimit", "DontRun", "RootStopped", "AllStopped"}
+                        \/ (s.cfg.gsc \in {"SingularEvalLimit", "WeightedEvalLimit"} /\ e.snap.refused = 0 /\ s.cfg.cache = 0)
+               verr == IF GscModelled(s) /\ GscVal(s) # e.v
+                       THEN {IF crisp THEN "C05_GscVerdict" ELSE "Info_GscVerdict"} ELSE {}
                latch == IF s.gscSeen /\ ~e.v /\ s.cfg.gsc # "Scripted" THEN {"C05_GscNotMonotone"} ELSE {}
            IN CASE e.by = "deme" ->
                      IF EnGenGsc(s, e.d)
